@@ -323,3 +323,101 @@ func TestRegressMergeTokens(t *testing.T) {
 		t.Fatalf("%v", err)
 	}
 }
+
+// TestWalkLargeRapid: rings of realistic size (tens of instances, up to thousands of tokens) in four
+// token layouts — perfectly even, even with jitter, uniform, clustered — where lookup shortcuts that
+// depend on the ring size or on the token distribution would act. Keys: sampled tokens and their
+// neighbours, the extremes, and uniform keys.
+func TestWalkLargeRapid(t *testing.T) {
+	rapid.Check(t, func(rt *rapid.T) {
+		c := lookupCase{ZA: rapid.Bool().Draw(rt, "zoneAware"), RF: rapid.IntRange(1, 5).Draw(rt, "rf")}
+		n := rapid.IntRange(2, 24).Draw(rt, "instances")
+		perInst := rapid.SampledFrom([]int{4, 8, 16, 32, 64, 128}).Draw(rt, "tokensPerInstance")
+		layout := rapid.SampledFrom([]string{"even", "jitter", "uniform", "clustered"}).Draw(rt, "layout")
+		total := n * perInst
+		used := map[uint32]bool{}
+		toks := make([]uint32, 0, total)
+		step := (uint64(1) << 32) / uint64(total)
+		offset := uint32(rapid.SampledFrom([]uint64{0, 0, 1, step / 2, step - 1}).Draw(rt, "offset"))
+		for i := 0; i < total; i++ {
+			var tk uint32
+			switch layout {
+			case "even":
+				tk = uint32(uint64(i)*step) + offset
+			case "jitter":
+				tk = uint32(uint64(i)*step) + uint32(rapid.Uint64Range(0, step-1).Draw(rt, "jitter"))
+			case "uniform":
+				tk = rapid.Uint32().Draw(rt, "token")
+			default:
+				tk = uint32(rapid.Uint64Range(0, 1<<20).Draw(rt, "clusterToken")) + uint32(i%3)<<30
+			}
+			if used[tk] {
+				continue
+			}
+			used[tk] = true
+			toks = append(toks, tk)
+		}
+		// deal the tokens to the instances: round-robin (interleaved) or by a drawn permutation
+		owner := make([]int, len(toks))
+		interleaved := rapid.Bool().Draw(rt, "interleaved")
+		for i := range toks {
+			if interleaved {
+				owner[i] = i % n
+			} else {
+				owner[i] = vx.Mix(uint64(toks[i])*2654435761+uint64(i), n)
+			}
+		}
+		zones := []string{"a", "b", "c", "d"}[:rapid.IntRange(1, 4).Draw(rt, "zones")]
+		for i := 0; i < n; i++ {
+			in := gen.Inst{ID: fmt.Sprintf("i%d", i), State: ring.ACTIVE}
+			if c.ZA {
+				in.Zone = zones[i%len(zones)]
+			}
+			if rapid.IntRange(0, 5).Draw(rt, "unhealthy") == 0 {
+				in.State = rapid.SampledFrom(gen.LiveStates).Draw(rt, "state")
+				in.AgeSec = rapid.SampledFrom(gen.Ages).Draw(rt, "age")
+			}
+			c.Ins = append(c.Ins, in)
+		}
+		for i, tk := range toks {
+			c.Ins[owner[i]].Tokens = append(c.Ins[owner[i]].Tokens, tk)
+		}
+		for i := range c.Ins {
+			ts := c.Ins[i].Tokens
+			sort.Slice(ts, func(a, b int) bool { return ts[a] < ts[b] })
+		}
+		// keys
+		seen := map[uint32]bool{}
+		var keys []uint32
+		add := func(k uint32) {
+			if !seen[k] {
+				seen[k] = true
+				keys = append(keys, k)
+			}
+		}
+		stride := len(toks)/96 + 1
+		first := rapid.IntRange(0, stride-1).Draw(rt, "firstSampledToken")
+		for i := first; i < len(toks); i += stride {
+			add(toks[i])
+			add(toks[i] - 1)
+			add(toks[i] + 1)
+		}
+		add(0)
+		add(1)
+		add(gen.MaxU)
+		for i := 0; i < 16; i++ {
+			add(rapid.Uint32().Draw(rt, "key"))
+		}
+		vx.Class("large_rings", 1)
+		vx.Class("large_ring_layout_"+layout, 1)
+		if len(toks) >= 64 {
+			vx.Class("large_rings_64_tokens_or_more", 1)
+		}
+		if vx.WantSample("large_ring_case") {
+			vx.Sample("large_ring_case", map[string]any{"instances": n, "tokens": len(toks), "layout": layout, "rf": c.RF, "zone_aware": c.ZA, "keys": len(keys)})
+		}
+		if err := runCase(t, c, keys, 1, true); err != nil {
+			rt.Fatalf("%v\nlayout=%s instances=%d tokens=%d", err, layout, n, len(toks))
+		}
+	})
+}
